@@ -59,6 +59,7 @@ AddD == /\ phase = "D" /\ Len(D) < MaxD
         /\ \E c \in DOMAIN Classes : \E s \in 1..MaxSpell : s <= Len(Classes[c]) /\
               \/ D' = Append(D, Item("use", c, s, "link"))
               \/ D' = Append(D, Item("use", c, s, "image"))
+              \/ D' = Append(D, Item("use", c, s, "listlink"))   \* the use inside a list that ends in an empty item
               \/ \E kind \in DOMAIN DDefKinds : D' = Append(D, Item("def", c, s, DDefKinds[kind]))
         /\ UNCHANGED <<R, hist, phase>>
 
